@@ -147,7 +147,7 @@ def main():
                               "obligations_all_properties": len(res["obligations"]), "trivially_true": res["trivial"]})
             ghost_assumes += res["ghost_assumes"]
             all_obl += [(con, o) for o in mine]
-            all_probe += [(con, n, pc) for n, pc in res["probes"]]
+            all_probe += [(con, pr) for pr in res["probes"]]
         for c in reg.contracts.values():
             if c.extern:
                 assumed_contracts.add("%s%s" % (c.target, (" -- " + c.trusted_reason) if c.trusted_reason else ""))
@@ -181,17 +181,8 @@ def main():
                         errors.append("solver disagreement on %s" % ob_records[i]["name"])
         # vacuity probes (only meaningful when nothing failed)
         if all(r["status"] == "unsat" for r in results) and not undecided:
-            pr = solve.probe([pc for _, _, pc in all_probe])
-            exits_ok = {}
-            for (con, nme, _), r in zip(all_probe, pr):
-                if "normal exit reachable" in nme:
-                    exits_ok[con.target] = exits_ok.get(con.target, False) or r["status"] != "unsat"
-                elif r["status"] == "unsat":
-                    errors.append("vacuity: %s is unreachable / contradictory" % nme)
-            for tgt, ok in exits_ok.items():
-                con = reg.contracts[tgt]
-                if not ok and con.ensures:
-                    errors.append("vacuity: no normal exit of %s is reachable under its contract" % tgt)
+            for nme in solve.probe([pr for _, pr in all_probe]):
+                errors.append("vacuity: %s" % nme)
 
     # ------------------------------------------------------------------ 2. concrete part
     rt_docs = []
